@@ -12,6 +12,10 @@ use std::net::SocketAddr;
 pub const GS_FORBID: &[char] = &['\0', '\\'];
 
 fn gs_str(t: &mut Tape, max: usize) -> String {
+    // now and then a value that is a word of the protocol itself
+    if max >= 7 && t.draw(DATA, 40) == 0 {
+        return (*t.pick(DATA, &["final", "queryid", "1.1", "final ", "splitnum", "player_", "team_t"])).to_string();
+    }
     gen::string(t, &StrOpts { max_len: max, forbid: GS_FORBID, unicode: true, control: false, min_len: 0 })
 }
 
